@@ -56,7 +56,7 @@ Scalars ==
     \cup {XStr(T(ty), T("x")) : ty \in {"T", "F", "M", "N", "R", "NA", "NaN", "INF", "C", "Z"}}
     \cup {Date(0, 1, 1), Date(2021, 2, 28), Date(2020, 2, 29), Date(9999, 12, 31)}
     \cup {Time(0, 0, 0, 0), Time(23, 59, 59, 0), Time(12, 30, 15, 500000000), Time(1, 2, 3, 123000000),
-          Time(1, 2, 3, 123456000), Time(1, 2, 3, 123456789), Time(1, 2, 3, 1)}
+          Time(1, 2, 3, 123456000), Time(1, 2, 3, 123456789), Time(1, 2, 3, 1), Time(17, 25, 33, 50000000), Time(8, 0, 0, 7000), Time(8, 0, 0, 10000001)}
     \cup {DT(2021, 6, 15, 43200, 0, 0, "UTC"),
           DT(2021, 1, 15, 43200, 0, -18000, "New_York"),
           DT(2021, 7, 15, 43200, 500000000, -14400, "New_York"),
@@ -78,7 +78,12 @@ Scalars ==
           DT(2021, 1, 15, 43200, 0, -10800, "Argentina/Buenos_Aires"),   \* three-segment ids keep two segments as their name
           DT(2021, 7, 15, 43200, 0, -18000, "North_Dakota/Center"),
           DT(1999, 12, 31, 86399, 999000000, 0, "UTC"),
-          DT(2021, 12, 31, 50400, 0, 36000, "Brisbane")}       \* local date is the next year
+          DT(2021, 12, 31, 50400, 0, 36000, "Brisbane"),       \* local date is the next year
+          \* the fraction family: the first non-zero digit of the fraction at several positions, zeros inside
+          DT(2021, 6, 15, 37230, 45000000, -14400, "New_York"), DT(2021, 6, 15, 37230, 1, 0, "UTC"),
+          DT(2021, 6, 15, 37230, 7000, 3600, "London"), DT(2021, 6, 15, 37230, 10000001, 0, "UTC"),
+          \* zones that are other names of UTC keep their own name
+          DT(2021, 6, 15, 45000, 0, 0, "GMT"), DT(2021, 6, 15, 45000, 0, 0, "Zulu")}
     \cup {Coord("0x0000000000000000", "0x0000000000000000"),
           Coord(F64OfNumeral(T("37.545")), F64OfNumeral(T("-77.449"))),
           Coord(F64OfNumeral(T("-90")), F64OfNumeral(T("180"))), Coord(F64OfNumeral(T("90")), F64OfNumeral(T("-180"))),
@@ -103,7 +108,7 @@ Wraps(x) ==
 \* cols / rows / ver / dis / tz / lat / lng / type / name / kind, Zinc's ver), in every place a name can stand, and the
 \* kind-less dicts that look like a Hayson scalar object. They enter the universes at depth MaxDepth (never wrapped).
 CodecNames == {T("ver"), T("meta"), T("cols"), T("rows"), T("val"), T("unit"), T("name"), T("dis"), T("tz"), T("lat"), T("lng"),
-               T("type"), T("kind"), T("id"), T("def"), T("is")}
+               T("type"), T("kind"), T("id"), T("def"), T("is"), T("empty")}
 NameFamily ==
     {Dict(<<<<nm, One>>>>) : nm \in CodecNames}
     \cup {Dict(<<<<nm, Str(T("x"))>>>>) : nm \in CodecNames}
